@@ -40,7 +40,7 @@ SPEC = {
     "pid": "C14",
     "coq_targets": ["Props/C14.vo", "Extract/ExC14.vo"],
     "bin": "c14",
-    "sizes": {"quick": 1200, "thorough": 50000},
+    "sizes": {"quick": 1200, "thorough": 30000},
     "search_n": 10000,
     "runner_timeout": 3000,
     "rule": ("one case = one seeded history against a fresh mock cluster (1-3 nodes, with/without the metadata-id "
@@ -62,8 +62,8 @@ SPEC = {
         "messages are modelled after frame parsing (codec = C08/C09); load / compare / store of the shared cell inside "
         "handle_result_metadata_new_id and reprepare are one atomic step of the interleaving model",
         "C14_faithful premises: the metadata id determines the columns, ids are non-empty, distinct statements have "
-        "distinct ids and texts; it speaks about calls on connections with the extension or with "
-        "use_cached_result_metadata off (without both the driver is documented to decode with stale metadata)",
+        "distinct ids and texts; it is stated for calls outside the known-finding class F17 (no extension and "
+        "use_cached_result_metadata on), for which C14_faithful_refuted gives the counterexample",
         "the tie's callers are sequential; concurrency is covered by the theorems (all interleavings), not by the tie",
     ],
     "extra_coverage": _extra,
